@@ -58,13 +58,13 @@ NoView == [h |-> 0, r |-> 0, ver |-> 0, phs |-> {}, pv |-> EmptyFn, pc |-> Empty
 \* [RoundLifecycle.Reset]
 ResetRLC(s, h, r) == [s EXCEPT !.H = h, !.R = r, !.timer = "none",
                                !.propCh = TRUE, !.prevoteCh = TRUE, !.precommitCh = TRUE, !.finCh = TRUE,
-                               !.hc = "open", !.cwElapsed = FALSE, !.considered = {}]
+                               !.hc = "open", !.cwElapsed = FALSE, !.considered = {}, !.pcDue = FALSE]
 
 ZeroRLC == [H |-> 0, R |-> 0, S |-> "none", timer |-> "none",
             propCh |-> FALSE, prevoteCh |-> FALSE, precommitCh |-> FALSE, finCh |-> FALSE,
             hc |-> "none", cwElapsed |-> FALSE, finalized |-> FALSE, considered |-> {},
             vrv |-> NoView, replaying |-> TRUE, actions |-> FALSE,
-            cm |-> "idle", cmH |-> 0, cmR |-> 0]
+            cm |-> "idle", cmH |-> 0, cmR |-> 0, pcDue |-> FALSE]
 
 -----------------------------------------------------------------------------
 Ctx0(s, st) == [s |-> s, st |-> st, o |-> <<>>, pan |-> "", stop |-> FALSE, needEntrance |-> FALSE, needAdvance |-> "none"]
@@ -159,7 +159,7 @@ ProposalViewUpdate(x, v) ==
        LET x1 == CancelTimer(x)
            ok == OKPHs(v.phs)
        IN IF MaxPow(v.pv) >= maj
-            THEN [CMRequest([x1 EXCEPT !.s.S = "AwaitingPrecommits"], "Choose", ok, TRUE) EXCEPT !.s.considered = {}]
+            THEN [CMRequest([x1 EXCEPT !.s.S = "AwaitingPrecommits"], "Choose", ok, TRUE) EXCEPT !.s.considered = {}, !.s.pcDue = TRUE]
             ELSE LET x2 == StartTimer([x1 EXCEPT !.s.S = "PrevoteDelay"], "PrevoteDelay")
                  IN IF ok # {} THEN CMRequest([x2 EXCEPT !.s.considered = @ \cup ok], "Consider", ok, TRUE) ELSE x2
   ELSE IF Cardinality(v.phs) > Cardinality(x.s.vrv.phs) /\ Cardinality(OKPHs(v.phs)) > Cardinality(OKPHs(x.s.vrv.phs))
@@ -242,7 +242,13 @@ RecordProposal(x, d) == [IF Participating THEN SignAndSave(x, "proposal", d) ELS
 RecordPrevote(x, target) ==
   LET x1 == IF Participating THEN SignAndSave(x, "prevote", target) ELSE x
       x2 == IF OKx(x1) /\ x1.s.S = "AwaitingProposal" THEN CancelTimer([x1 EXCEPT !.s.S = "AwaitingPrevotes"]) ELSE x1
-  IN [x2 EXCEPT !.s.prevoteCh = FALSE]
+      \* the prevote quorum was seen before our own prevote: the precommit decision is requested now
+      x3 == IF OKx(x2) /\ x2.s.pcDue
+              THEN (IF x2.s.S = "AwaitingPrecommits" /\ x2.s.precommitCh
+                      THEN CMRequest([x2 EXCEPT !.s.pcDue = FALSE], "Decide", NULL, FALSE)
+                      ELSE [x2 EXCEPT !.s.pcDue = FALSE])
+              ELSE x2
+  IN [x3 EXCEPT !.s.prevoteCh = FALSE]
 
 \* [recordPrecommit]
 RecordPrecommit(x, target) ==
